@@ -7,13 +7,13 @@ OUT=/verif/mutation; mkdir -p $OUT
 B=$(mktemp -d /tmp/mutbase.XXXXXX); git -C /repo archive HEAD | tar -x -C $B
 printf '{"Replace":{"%s/zz_rosvc_diff_test.go":"/verif/replay/diff_harness_test.go"}}' $B > $B.ov.json
 (cd $B && ROSVC_DIFF_OUT=$OUT/base.json go test -overlay $B.ov.json -vet=off -count=1 -timeout 180s -run '^TestRosvcDifferentialScenarios$' . >/dev/null 2>&1)
-/verif/bin/mutate -dir $B -list > $OUT/points.txt
+/verif/bin/mutate -dir $B -list | grep -E " (collection\.go|collection\+xattrs\.go|collection\+subdoc\.go|feeds\.go|queue\.go|hlc\.go|expiry_manager\.go|bucket_registry\.go|utils\.go|bucket_api\.go):" > $OUT/points.txt
 one() {
   id=$1; desc=$(grep "^$id " $OUT/points.txt | cut -d' ' -f2-)
   W=$(mktemp -d /tmp/mut.XXXXXX); cp -r $B/. $W/
   /verif/bin/mutate -dir $W -apply $id >/dev/null 2>&1
   if ! (cd $W && go build ./... >/dev/null 2>&1); then echo "$id nobuild $desc"; rm -rf $W; return; fi
-  if ! (cd $W && timeout 300 go test -vet=off -count=1 -timeout 240s ./... >/dev/null 2>&1); then echo "$id killed-by-suite $desc"; rm -rf $W; return; fi
+  if ! (cd $W && timeout 90 go test -vet=off -count=1 -timeout 60s ./... >/dev/null 2>&1); then echo "$id killed-by-suite $desc"; rm -rf $W; return; fi
   printf '{"Replace":{"%s/zz_rosvc_diff_test.go":"/verif/replay/diff_harness_test.go"}}' $W > $W.ov.json
   (cd $W && ROSVC_DIFF_OUT=$W.out.json timeout 300 go test -overlay $W.ov.json -vet=off -count=1 -timeout 180s -run '^TestRosvcDifferentialScenarios$' . >/dev/null 2>&1)
   if [ -f $W.out.json ] && cmp -s $W.out.json $OUT/base.json; then echo "$id same $desc"; else echo "$id survivor $desc"; fi
@@ -23,7 +23,7 @@ n=0
 : > $OUT/phase1.txt
 for id in $(cut -d' ' -f1 $OUT/points.txt); do
   one $id >> $OUT/phase1.txt &
-  n=$((n+1)); if [ $((n % 8)) = 0 ]; then wait; fi
+  n=$((n+1)); if [ $((n % 12)) = 0 ]; then wait; fi
 done
 wait
 rm -rf $B $B.ov.json
